@@ -70,7 +70,7 @@ class IdealReservoir:
             alpha_scaled = self.alpha_scaled(b)
             kt_h2 = mesh_ratio * alpha_scaled
             a_matrix = _build_matrix(kt_h2)
-            pseudopressure[i + 1], _ = sparse.linalg.bicgstab(a_matrix, b, atol=_ATOL)
+            pseudopressure[i + 1] = sparse.linalg.spsolve(a_matrix, b)
         self.pseudopressure = pseudopressure
 
     def recovery_factor(self, time: ndarray | None = None, density=False) -> ndarray:
@@ -211,7 +211,7 @@ class SinglePhaseReservoir(IdealReservoir):
                 raise ValueError(msg) from e
             kt_h2 = mesh_ratio * alpha_scaled
             a_matrix = _build_matrix(kt_h2)
-            pseudopressure[i + 1], _ = sparse.linalg.bicgstab(a_matrix, b, atol=_ATOL)
+            pseudopressure[i + 1] = sparse.linalg.spsolve(a_matrix, b)
         self.pseudopressure = pseudopressure
 
 
@@ -375,6 +375,6 @@ def _build_matrix(kt_h2: ndarray) -> sparse.spmatrix:
     diagonal_low = -kt_h2[1:]
     diagonal_upper = -kt_h2[0:-1]
     a_matrix = sparse.diags(
-        [diagonal_low, diagonal_long, diagonal_upper], [-1, 0, 1], format="csr"
+        [diagonal_low, diagonal_long, diagonal_upper], [-1, 0, 1], format="csc"
     )
     return a_matrix
